@@ -94,7 +94,7 @@ type c06Frame struct {
 type c06Body struct {
 	mu       sync.Mutex
 	remain   int
-	limit    int // the scratch buffer length of this upload (0 = not known yet): see Read
+	limit    int      // the scratch buffer length of this upload (0 = not known yet): see Read
 	gate     chan int // n = how many bytes the next Read may return (0 = as many as fit)
 	readDone chan int
 	closed   chan struct{}
